@@ -23,6 +23,9 @@ KEY = "cgroup.absolutePath()"
 
 
 def run(ctx):
+    # locals / parameters the rules below refer to by name (a rename makes the analysis 'broken', never a violation)
+    ctx.anchor(ctx.fn1('Oomd::Engine::Ruleset::runOnce'), 'cgroup', 'visited', 'maybeHasXattr', 'cgroupfd', 'context')
+    ctx.anchor(ctx.fn1('Oomd::Engine::Ruleset::registerRunnableRulesetForCgroupPath'), 'cgroup', 'args', 'action_group', 'detector_groups')
     P = ctx.prog
     ro = ctx.fn1("Oomd::Engine::Ruleset::runOnce")
     ls = [l for l in loops(ro) if l["stmt"] is not None and ro.nodes[l["stmt"]]["k"] == "rangefor"
